@@ -51,6 +51,7 @@ def totalProp (trace : List (Rec × List Rec)) : Option String :=
       let kind := o.str "kind"
       if kind == "panic" then some ("the run panicked at " ++ o.str "site" ++ ": " ++ o.str "msg")
       else if kind == "capped" then some "the run did not stop (event cap reached)"
+      else if kind == "hang" then some ("the run did not stop: " ++ o.str "msg")
       else if kind == "parse-error" then some ("the generated script does not parse: " ++ o.str "msg")
       else if v.isNone && kind != "result" then some ("a configuration of registered keys was not run to completion: " ++ o.str "msg")
       else if v.isSome && !(kind == "error" && o.str "class" == "invalid-key") then some "a configuration naming an unknown key was not rejected with an error"
